@@ -36,7 +36,7 @@ def bounds(tier):
             "patterns": 6 if tier == "thorough" else 2,
             "blake2_outlen_x_keylen": "all (1..=64 x 0..=64, 1..=32 x 0..=32)",
             "input_alignments": "byte offsets 1..=7 (quick) / 1..=63 (thorough) on boundary lengths",
-            "huge": "2^29+5 bytes (bit length passing 2^32) for the 8 variants with a length counter", "long_lengths": ("kB-1,kB,kB+1,kB+B/2+3 for every k in 5..=33; " + ("kB-1,kB,kB+1 for k in {64,512,1024}; 65536, 65537, 131072" if tier == "thorough" else "kB-1,kB,kB+1 for k in {64,512}; 65536"))}
+            "huge": "2^29+104 bytes (bit length passing 2^32) for the 8 variants with a length counter", "long_lengths": ("kB-1,kB,kB+1,kB+B/2+3 for every k in 5..=33; " + ("kB-1,kB,kB+1 for k in {64,512,1024}; 65536, 65537, 131072" if tier == "thorough" else "kB-1,kB,kB+1 for k in {64,512}; 65536"))}
 
 
 def validate_models(tier):
@@ -57,20 +57,18 @@ COUNTER_VARIANTS = ["sha1", "sha224", "sha256", "sha384", "sha512", "sha512_224"
 
 
 def shard_huge(variant, tier):
-    """messages of 2^29 + 5 bytes (bit length passing 2^32, the first carry inside the length counter / length encoding), in one call
-    and with the crossing inside the second of two calls"""
+    """a message of 2^29 + 104 bytes (bit length passing 2^32, the first carry inside the length counter / length encoding), fed as
+    eight calls of 2^26 + 13 bytes: the crossing falls inside the last call (64 MiB of buffer instead of half a gigabyte)"""
     import hashlib
     ck = core.Checker(PROPERTY_ID)
     kind, oneshot, B, D = CTX[variant]
-    n = (1 << 29) + 5
-    name = {"sha512_224": "sha512_224", "sha512_256": "sha512_256"}.get(variant, variant)
-    h = hashlib.new(name)
-    chunk = b"\xff" * (1 << 24)
-    for _ in range(n >> 24):
+    clen, cnt = (1 << 26) + 13, 8
+    h = hashlib.new(variant)
+    chunk = b"\xff" * clen
+    for _ in range(cnt):
         h.update(chunk)
-    h.update(b"\xff" * (n & ((1 << 24) - 1)))
     d = obs_of(h.digest())
-    cases = [(["hnew s0 %s" % " ".join(kind), "update_mut s0 %s" % P(1, 0, (1 << 29) - 3), "update_mut s0 %s" % P(1, 0, 8), "fin s0"], ["-", "-", "-", d], {"nt": True})]
+    cases = [(["hnew s0 %s" % " ".join(kind), "update_rep s0 %s %d" % (P(1, 0, clen), cnt), "fin s0"], ["-", "-", d], {"nt": True})]
     ck.run(cases, nontrivial=_nontrivial)
     ck.stats.states = len(cases)
     return ck.stats
